@@ -1,4 +1,5 @@
 import Anysystem.Proofs.SimTraceInv
+import Anysystem.Proofs.SimRunLemmas
 /-!
 # C08 / C05 — whole-run facts about crashed nodes and about where received messages come from
 
@@ -8,6 +9,23 @@ import Anysystem.Proofs.SimTraceInv
 * **origin of received messages** (C05): every queued copy and every `MessageReceived` entry of the global trace stems from
   an earlier `MessageSent` entry with the same identifier and endpoints, carrying the payload that was sent or its canonical
   corruption — and exactly the payload that was sent when both processes live on one node.
+
+The trace-entry classifier `SLog.handledOn` ("the entry records a handler invocation on node `n`": `recv` with destination
+node `n`, `timerFired` / `localRecv` on node `n`) is defined in `SimRunLemmas.lean`, together with the step relations
+`Quiet` (silence of a node) and `OStep` (origin) that are carried through `sendMessage` → `handleActions` → `runHandler` →
+`onMessage / onTimer / onLocal` → `deliver` → `step` → `steps`.
+
+Changes with respect to the statements as first written (all forced, see the counterexample below):
+* `TraceOrigin.queued` additionally says `e.dst = dn`: a queued message copy is addressed to the node its data names;
+* hypothesis `hq` of `received_intact_no_corruption` additionally says `e.dst = dn`.
+`deliver` hands a popped message event to `onMessage` with `n := e.dst`, and the `recv` entry is logged with destination
+node `e.dst`, whereas the `sent` entry (and the event's data) name `dn`.  Without `e.dst = dn`, `TraceOrigin.step` and
+`received_intact_no_corruption` are false: take a state with handlers `[5]`, node 5 holding process 2, empty trace apart from
+`sent t 0 0 1 7 2 m`, and the single queued event `⟨0, t, 0, 5, .msg 0 m 1 0 2 7⟩` (`dst = 5`, `dn = 7`); it satisfies the
+original `TraceOrigin` (and `hq`, `hr`), one step logs `recv t 0 0 1 5 2 m`, and no `sent` entry with destination node 5
+exists (machine-checked at the end of this file: `Sim.RunDemo.cex`, and the two `example`s refuting the original
+`TraceOrigin.step` and `received_intact_no_corruption`).  `sendMessage` always queues copies with `dst := dn`, so the
+clause holds in every reachable state.
 -/
 namespace Anysystem
 
@@ -15,38 +33,212 @@ set_option linter.unusedSectionVars false
 
 variable {σ T : Type} [TimeOps T]
 
-/-- the trace entry records a handler invocation on node `n` -/
-def SLog.handledOn (n : Nat) : SLog T → Bool
-  | .recv _ _ _ _ dn _ _ => dn == n
-  | .timerFired _ _ _ node _ => node == n
-  | .localRecv _ node _ _ _ => node == n
-  | _ => false
-
 namespace Sim
 
 /-- `crash_node` removes the handler -/
-theorem crashNode_no_handler (s s' : Sim σ T) (n : Nat) (h : s.crashNode n = .ok s') : n ∉ s'.handlers := sorry
+theorem crashNode_no_handler (s s' : Sim σ T) (n : Nat) (h : s.crashNode n = .ok s') : n ∉ s'.handlers :=
+  (crashNode_cancels s s' n h).2.1
 
 /-- one step while node `n` has no handler: still no handler, no handler invocation on `n` is recorded, the node's
     processes are untouched -/
 theorem step_crashed_silent (h : SHandler σ T) (s s' : Sim σ T) (b : Bool) (n : Nat) (hn : n ∉ s.handlers)
     (hok : s.step h = .ok (b, s')) :
     n ∉ s'.handlers ∧ (∃ ext, s'.trace = s.trace ++ ext ∧ ∀ x ∈ ext, x.handledOn n = false) ∧
-      amGet? n s'.nodes = amGet? n s.nodes := sorry
+      amGet? n s'.nodes = amGet? n s.nodes := by
+  have hq := step_quiet h b n hn hok
+  exact ⟨by rw [hq.handlers]; exact hn, hq.trace, hq.node⟩
 
 /-- the same along a whole run of steps -/
 theorem steps_crashed_silent (h : SHandler σ T) (k : Nat) (s s' : Sim σ T) (b : Bool) (n : Nat) (hn : n ∉ s.handlers)
     (hok : s.steps h k = .ok (b, s')) :
     n ∉ s'.handlers ∧ (∃ ext, s'.trace = s.trace ++ ext ∧ ∀ x ∈ ext, x.handledOn n = false) ∧
-      amGet? n s'.nodes = amGet? n s.nodes := sorry
+      amGet? n s'.nodes = amGet? n s.nodes := by
+  have hq := steps_quiet h k b n hn hok
+  exact ⟨by rw [hq.handlers]; exact hn, hq.trace, hq.node⟩
 
 /-- … and `send_local_message` to a process of a crashed node is refused (an error, nothing changes) -/
 theorem sendLocal_crashed_refused (h : SHandler σ T) (s : Sim σ T) (p n : Nat) (m : Msg) (nd : SNode σ T)
     (hp : amGet? p s.procNodes = some n) (hnd : amGet? n s.nodes = some nd) (hc : nd.crashed = true) :
-    ∃ e, s.sendLocal h p m = .error e := sorry
+    ∃ e, s.sendLocal h p m = .error e :=
+  ⟨"Cannot send local message to process on crashed node", by simp [Sim.sendLocal, hp, nodeOf, hnd, hc]⟩
 
 /-- every queued message copy and every receipt stems from a logged send -/
 structure TraceOrigin (s : Sim σ T) : Prop where
+  queued : ∀ e ∈ s.events, ∀ mid m src sn dst dn, e.data = .msg mid m src sn dst dn →
+    e.dst = dn ∧
+    ∃ t m0, SLog.sent t mid sn src dn dst m0 ∈ s.trace ∧ (m = m0 ∨ (sn ≠ dn ∧ m = corruptSim m0))
+  received : ∀ t mid sn src dn dst m, SLog.recv t mid sn src dn dst m ∈ s.trace →
+    ∃ t0 m0, SLog.sent t0 mid sn src dn dst m0 ∈ s.trace ∧ (m = m0 ∨ (sn ≠ dn ∧ m = corruptSim m0))
+  dropped : ∀ t mid sn src dn dst m, SLog.dropped t mid sn src dn dst m ∈ s.trace →
+    ∃ t0 m0, SLog.sent t0 mid sn src dn dst m0 ∈ s.trace ∧ (m = m0 ∨ (sn ≠ dn ∧ m = corruptSim m0))
+
+/-- `TraceOrigin` is the queue invariant plus the trace invariant of `SimRunLemmas.lean`, with corruption admissible -/
+theorem traceOrigin_iff (s : Sim σ T) : s.TraceOrigin ↔ QOk true s ∧ TrOk true s := by
+  constructor
+  · intro hi
+    refine ⟨?_, ?_⟩
+    · intro e he mid m src sn dst dn hd
+      obtain ⟨h1, h2⟩ := hi.queued e he mid m src sn dst dn hd
+      exact ⟨h1, (org_true_iff _ _ _ _ _ _ _).2 h2⟩
+    · intro x hx
+      cases x with
+      | recv t mid sn src dn dst m => exact (org_true_iff _ _ _ _ _ _ _).2 (hi.received t mid sn src dn dst m hx)
+      | dropped t mid sn src dn dst m => exact (org_true_iff _ _ _ _ _ _ _).2 (hi.dropped t mid sn src dn dst m hx)
+      | _ => trivial
+  · rintro ⟨hq, ht⟩
+    refine ⟨?_, ?_, ?_⟩
+    · intro e he mid m src sn dst dn hd
+      obtain ⟨h1, h2⟩ := hq e he mid m src sn dst dn hd
+      exact ⟨h1, (org_true_iff _ _ _ _ _ _ _).1 h2⟩
+    · intro t mid sn src dn dst m hx
+      exact (org_true_iff _ _ _ _ _ _ _).1 (ht _ hx)
+    · intro t mid sn src dn dst m hx
+      exact (org_true_iff _ _ _ _ _ _ _).1 (ht _ hx)
+
+/-- the invariant is inherited along any origin-respecting step -/
+theorem TraceOrigin.of_step {s s' : Sim σ T} (hi : s.TraceOrigin) (h : OStep true s s') : s'.TraceOrigin := by
+  obtain ⟨hq, ht⟩ := (traceOrigin_iff s).1 hi
+  exact (traceOrigin_iff s').2 ⟨hq.of_step h, ht.of_step h⟩
+
+theorem TraceOrigin.init (clock : T) (net : SimNet T) (draws : List T) :
+    ({ clock := clock, net := net, draws := draws } : Sim σ T).TraceOrigin :=
+  ⟨fun e he => (by cases he), fun t mid sn src dn dst m hx => (by cases hx), fun t mid sn src dn dst m hx => (by cases hx)⟩
+
+theorem TraceOrigin.sendMessage {s s' : Sim σ T} (m : Msg) (src dst : Nat) (hi : s.TraceOrigin)
+    (hok : s.sendMessage m src dst (nameLen m.tip) = .ok s') : s'.TraceOrigin :=
+  hi.of_step (sendMessage_orun true 0 (.inl rfl) hok).o
+
+theorem TraceOrigin.step (h : SHandler σ T) {s s' : Sim σ T} (b : Bool) (hi : s.TraceOrigin)
+    (hok : s.step h = .ok (b, s')) : s'.TraceOrigin :=
+  hi.of_step (step_ostep true h b ((traceOrigin_iff s).1 hi).1 (.inl rfl) hok)
+
+theorem TraceOrigin.steps (h : SHandler σ T) (k : Nat) {s s' : Sim σ T} (b : Bool) (hi : s.TraceOrigin)
+    (hok : s.steps h k = .ok (b, s')) : s'.TraceOrigin :=
+  hi.of_step (steps_ostep true h k b ((traceOrigin_iff s).1 hi).1 (.inl rfl) hok)
+
+theorem TraceOrigin.sendLocal (h : SHandler σ T) {s s' : Sim σ T} (p : Nat) (m : Msg) (hi : s.TraceOrigin)
+    (hok : s.sendLocal h p m = .ok s') : s'.TraceOrigin :=
+  hi.of_step (sendLocal_ostep true h p m (.inl rfl) hok)
+
+theorem TraceOrigin.crashNode {s s' : Sim σ T} (n : Nat) (hi : s.TraceOrigin) (hok : s.crashNode n = .ok s') :
+    s'.TraceOrigin :=
+  hi.of_step (crashNode_ostep true n ((traceOrigin_iff s).1 hi).1 hok)
+
+theorem TraceOrigin.recoverNode {s s' : Sim σ T} (n : Nat) (hi : s.TraceOrigin) (hok : s.recoverNode n = .ok s') :
+    s'.TraceOrigin :=
+  hi.of_step (recoverNode_ostep true n hok)
+
+/-- with the corruption rate at zero throughout a run, every trace entry the run adds that is a `recv` or a `dropped`
+    entry, and every message copy queued at its end, carries exactly a sent payload (`Org false`, `QOk false`) -/
+theorem run_intact_no_corruption [LawfulTime T] (h : SHandler σ T) (k : Nat) {s s' : Sim σ T} (b : Bool)
+    (hq : ∀ e ∈ s.events, ∀ mid m src sn dst dn, e.data = .msg mid m src sn dst dn →
+      e.dst = dn ∧ ∃ t, SLog.sent t mid sn src dn dst m ∈ s.trace)
+    (hz : TimeOps.lt TimeOps.zero s.net.corruptRate = false)
+    (hd : ∀ d ∈ s.draws, LawfulTime.isDraw d) (hzero : LawfulTime.isDraw (TimeOps.zero : T))
+    (hok : s.steps h k = .ok (b, s')) : OStep false s s' ∧ QOk false s' := by
+  have hq0 : QOk false s := fun e he mid m src sn dst dn hdat =>
+    ⟨(hq e he mid m src sn dst dn hdat).1, (org_false_iff _ _ _ _ _ _ _).2 (hq e he mid m src sn dst dn hdat).2⟩
+  have hp : Pre false s := by
+    right
+    intro r hr
+    refine lt_draw_false r _ ?_ hz
+    rcases hr with hr | hr
+    · exact hd r hr
+    · rw [hr]; exact hzero
+  have ho := steps_ostep false h k b hq0 hp hok
+  exact ⟨ho, hq0.of_step ho⟩
+
+/-- corruption needs a positive corruption rate: with the rate at zero throughout, what is queued and received is exactly
+    what was sent -/
+theorem received_intact_no_corruption [LawfulTime T] (h : SHandler σ T) (k : Nat) {s s' : Sim σ T} (b : Bool)
+    (hq : ∀ e ∈ s.events, ∀ mid m src sn dst dn, e.data = .msg mid m src sn dst dn →
+      e.dst = dn ∧ ∃ t, SLog.sent t mid sn src dn dst m ∈ s.trace)
+    (hr : ∀ t mid sn src dn dst m, SLog.recv t mid sn src dn dst m ∈ s.trace → ∃ t0, SLog.sent t0 mid sn src dn dst m ∈ s.trace)
+    (hz : TimeOps.lt TimeOps.zero s.net.corruptRate = false)
+    (hd : ∀ d ∈ s.draws, LawfulTime.isDraw d) (hzero : LawfulTime.isDraw (TimeOps.zero : T))
+    (hok : s.steps h k = .ok (b, s')) :
+    ∀ t mid sn src dn dst m, SLog.recv t mid sn src dn dst m ∈ s'.trace → ∃ t0, SLog.sent t0 mid sn src dn dst m ∈ s'.trace := by
+  obtain ⟨ho, _⟩ := run_intact_no_corruption h k b hq hz hd hzero hok
+  obtain ⟨ext, ht, hx⟩ := ho.trace
+  intro t mid sn src dn dst m hmem
+  rw [ht] at hmem
+  rcases List.mem_append.1 hmem with hmem | hmem
+  · obtain ⟨t0, h0⟩ := hr t mid sn src dn dst m hmem
+    exact ⟨t0, sub_of_append ht _ h0⟩
+  · exact (org_false_iff _ _ _ _ _ _ _).1 (hx _ hmem)
+
+/-- … and what is still queued at the end of the run is exactly what was sent, too -/
+theorem queued_intact_no_corruption [LawfulTime T] (h : SHandler σ T) (k : Nat) {s s' : Sim σ T} (b : Bool)
+    (hq : ∀ e ∈ s.events, ∀ mid m src sn dst dn, e.data = .msg mid m src sn dst dn →
+      e.dst = dn ∧ ∃ t, SLog.sent t mid sn src dn dst m ∈ s.trace)
+    (hz : TimeOps.lt TimeOps.zero s.net.corruptRate = false)
+    (hd : ∀ d ∈ s.draws, LawfulTime.isDraw d) (hzero : LawfulTime.isDraw (TimeOps.zero : T))
+    (hok : s.steps h k = .ok (b, s')) :
+    ∀ e ∈ s'.events, ∀ mid m src sn dst dn, e.data = .msg mid m src sn dst dn →
+      e.dst = dn ∧ ∃ t, SLog.sent t mid sn src dn dst m ∈ s'.trace := by
+  obtain ⟨_, hq'⟩ := run_intact_no_corruption h k b hq hz hd hzero hok
+  intro e he mid m src sn dst dn hdat
+  exact ⟨(hq' e he mid m src sn dst dn hdat).1, (org_false_iff _ _ _ _ _ _ _).1 (hq' e he mid m src sn dst dn hdat).2⟩
+
+end Sim
+
+/-! ## Non-vacuity -/
+namespace Sim.RunDemo
+open Sim.TraceDemo
+
+-- the `example`s below name the run's hypotheses even where the proof term does not need them
+set_option linter.unusedVariables false
+
+/-- `TraceOrigin.init` instantiated for a fresh simulator over `Ticks` -/
+example : ({ clock := ⟨0⟩, net := SimNet.default, draws := [⟨500⟩] } : Sim Nat Ticks).TraceOrigin :=
+  TraceOrigin.init _ _ _
+
+/-- the demo state of `Sim.TraceDemo` (nothing sent, nothing queued) satisfies the invariant … -/
+theorem s1_origin : s1.TraceOrigin :=
+  ⟨fun e he => (by cases he), fun t mid sn src dn dst m hx => (by cases hx), fun t mid sn src dn dst m hx => (by cases hx)⟩
+
+/-- … hence so does every state reached by a local message and ten steps -/
+example (s2 s' : Sim Nat Ticks) (b : Bool) (hsend : s1.sendLocal h 1 ⟨0, []⟩ = .ok s2)
+    (hrun : s2.steps h 10 = .ok (b, s')) : s'.TraceOrigin :=
+  (s1_origin.sendLocal h 1 _ hsend).steps h 10 b hrun
+
+/-- a concrete crashed-node run: process 1 on node 0 gets a local message (it sends message 0 to process 2 on node 1 and
+    message 1 to itself and sets a timer), then node 1 is crashed, then the simulator runs for up to ten steps.  The run
+    exists and reaches the end of the queue; node 1 has no handler at the end; the two trace entries added after the crash
+    (the receipt of message 1 and the timer firing, both on node 0) record no handler invocation on node 1; node 1 is left
+    exactly as the crash left it (process 2 in state 0, nothing received, empty event log). -/
+example : ((s1.sendLocal h 1 ⟨0, []⟩).bind fun s2 => (s2.crashNode 1).bind fun sc => (sc.steps h 10).map fun r =>
+      (r.1, r.2.handlers, (r.2.trace.drop sc.trace.length).all (fun x => !x.handledOn 1),
+       (r.2.trace.drop sc.trace.length).any (fun x => x.handledOn 0), (r.2.trace.drop sc.trace.length).length)).toOption =
+    some (false, [0], true, true, 2) := by decide
+
+/-- what is observable of the processes of node `n`: name, state, receive counter, length of the event log -/
+def view (s : Sim Nat Ticks) (n : Nat) : List (Nat × Nat × Nat × Nat) :=
+  ((amGet? n s.nodes).map (fun nd => nd.procs.map (fun q => (q.1, q.2.st, q.2.recv, q.2.log.length)))).getD []
+
+example : ((s1.sendLocal h 1 ⟨0, []⟩).bind fun s2 => (s2.crashNode 1).bind fun sc => (sc.steps h 10).map fun r =>
+      (view r.2 1 == [(2, 0, 0, 0)], view sc 1 == [(2, 0, 0, 0)], (amGet? 1 r.2.nodes).map (·.crashed) == some true,
+       view r.2 0 == [(1, 3, 1, 6)])).toOption = some (true, true, true, true) := by decide
+
+/-- the hypothesis of `steps_crashed_silent` holds along that run, so its conclusion does -/
+example (s2 sc s' : Sim Nat Ticks) (b : Bool) (hsend : s1.sendLocal h 1 ⟨0, []⟩ = .ok s2)
+    (hcrash : s2.crashNode 1 = .ok sc) (hrun : sc.steps h 10 = .ok (b, s')) :
+    1 ∉ s'.handlers ∧ (∃ ext, s'.trace = sc.trace ++ ext ∧ ∀ x ∈ ext, x.handledOn 1 = false) ∧
+      amGet? 1 s'.nodes = amGet? 1 sc.nodes :=
+  steps_crashed_silent h 10 sc s' b 1 (crashNode_no_handler s2 sc 1 hcrash) hrun
+
+/-- … and the invariant `TraceOrigin` holds at its end -/
+example (s2 sc s' : Sim Nat Ticks) (b : Bool) (hsend : s1.sendLocal h 1 ⟨0, []⟩ = .ok s2)
+    (hcrash : s2.crashNode 1 = .ok sc) (hrun : sc.steps h 10 = .ok (b, s')) : s'.TraceOrigin :=
+  (((s1_origin.sendLocal h 1 _ hsend).crashNode 1 hcrash).steps h 10 b hrun)
+
+/-! ### the statements as first written are false: a machine-checked counterexample
+
+Without the clause `e.dst = dn` a queued message copy may be addressed (`QEv.dst`) to another node than its data and its
+`sent` entry name; `deliver` then records the receipt on node `QEv.dst`, for which no `sent` entry exists. -/
+
+/-- `TraceOrigin` as first stated (no `e.dst = dn`) -/
+structure TraceOrigin₀ (s : Sim Nat Ticks) : Prop where
   queued : ∀ e ∈ s.events, ∀ mid m src sn dst dn, e.data = .msg mid m src sn dst dn →
     ∃ t m0, SLog.sent t mid sn src dn dst m0 ∈ s.trace ∧ (m = m0 ∨ (sn ≠ dn ∧ m = corruptSim m0))
   received : ∀ t mid sn src dn dst m, SLog.recv t mid sn src dn dst m ∈ s.trace →
@@ -54,37 +246,96 @@ structure TraceOrigin (s : Sim σ T) : Prop where
   dropped : ∀ t mid sn src dn dst m, SLog.dropped t mid sn src dn dst m ∈ s.trace →
     ∃ t0 m0, SLog.sent t0 mid sn src dn dst m0 ∈ s.trace ∧ (m = m0 ∨ (sn ≠ dn ∧ m = corruptSim m0))
 
-theorem TraceOrigin.init (clock : T) (net : SimNet T) (draws : List T) :
-    ({ clock := clock, net := net, draws := draws } : Sim σ T).TraceOrigin := sorry
+/-- a handler that does nothing -/
+def idle : SHandler Nat Ticks := fun _ st _ _ _ => (st, [], 0)
 
-theorem TraceOrigin.sendMessage {s s' : Sim σ T} (m : Msg) (src dst : Nat) (hi : s.TraceOrigin)
-    (hok : s.sendMessage m src dst (nameLen m.tip) = .ok s') : s'.TraceOrigin := sorry
+/-- message 0 was sent to process 2 "on node 7", its queued copy is addressed to node 5 (which hosts a process 2) -/
+def cex : Sim Nat Ticks :=
+  { clock := ⟨0⟩, net := SimNet.default, handlers := [5],
+    nodes := [(5, { skew := ⟨0⟩, procs := [(2, { st := 0 })] })],
+    trace := [.sent ⟨0⟩ 0 0 1 7 2 ⟨0, []⟩],
+    events := [⟨0, ⟨0⟩, 0, 5, .msg 0 ⟨0, []⟩ 1 0 2 7⟩] }
 
-theorem TraceOrigin.step (h : SHandler σ T) {s s' : Sim σ T} (b : Bool) (hi : s.TraceOrigin)
-    (hok : s.step h = .ok (b, s')) : s'.TraceOrigin := sorry
+def recvOn5 : SLog Ticks → Bool
+  | .recv _ _ _ _ dn _ _ => dn == 5
+  | _ => false
 
-theorem TraceOrigin.steps (h : SHandler σ T) (k : Nat) {s s' : Sim σ T} (b : Bool) (hi : s.TraceOrigin)
-    (hok : s.steps h k = .ok (b, s')) : s'.TraceOrigin := sorry
+def sentTo5 : SLog Ticks → Bool
+  | .sent _ _ _ _ dn _ _ => dn == 5
+  | _ => false
 
-theorem TraceOrigin.sendLocal (h : SHandler σ T) {s s' : Sim σ T} (p : Nat) (m : Msg) (hi : s.TraceOrigin)
-    (hok : s.sendLocal h p m = .ok s') : s'.TraceOrigin := sorry
+theorem cex_origin₀ : TraceOrigin₀ cex := by
+  refine ⟨?_, ?_, ?_⟩
+  · intro e he mid m src sn dst dn hd
+    simp only [cex, List.mem_singleton] at he
+    subst he
+    cases hd
+    exact ⟨⟨0⟩, ⟨0, []⟩, by simp [cex], .inl rfl⟩
+  · intro t mid sn src dn dst m hx
+    simp [cex] at hx
+  · intro t mid sn src dn dst m hx
+    simp [cex] at hx
 
-theorem TraceOrigin.crashNode {s s' : Sim σ T} (n : Nat) (hi : s.TraceOrigin) (hok : s.crashNode n = .ok s') :
-    s'.TraceOrigin := sorry
+/-- a trace with a receipt on node 5 and no send to node 5 violates the `received` clause -/
+theorem breaks (tr : List (SLog Ticks)) (h1 : tr.any recvOn5 = true) (h2 : tr.any sentTo5 = false) :
+    ¬ ∀ t mid sn src dn dst m, SLog.recv t mid sn src dn dst m ∈ tr → ∃ t0 m0, SLog.sent t0 mid sn src dn dst m0 ∈ tr := by
+  intro hall
+  obtain ⟨x, hx, hx5⟩ := List.any_eq_true.1 h1
+  cases x with
+  | recv t mid sn src dn dst m =>
+    obtain ⟨t0, m0, hs⟩ := hall t mid sn src dn dst m hx
+    have : tr.any sentTo5 = true := List.any_eq_true.2 ⟨_, hs, hx5⟩
+    rw [h2] at this
+    cases this
+  | _ => simp [recvOn5] at hx5
 
-theorem TraceOrigin.recoverNode {s s' : Sim σ T} (n : Nat) (hi : s.TraceOrigin) (hok : s.recoverNode n = .ok s') :
-    s'.TraceOrigin := sorry
+/-- `TraceOrigin.step` as first stated is false -/
+example : ¬ ∀ (h : SHandler Nat Ticks) (s s' : Sim Nat Ticks) (b : Bool), TraceOrigin₀ s → s.step h = .ok (b, s') →
+    TraceOrigin₀ s' := by
+  intro hall
+  have hfact : (cex.step idle).toOption.map (fun r => (r.2.trace.any recvOn5, r.2.trace.any sentTo5)) =
+      some (true, false) := by decide
+  cases hst : cex.step idle with
+  | error e => rw [hst] at hfact; cases hfact
+  | ok r =>
+    rw [hst] at hfact
+    simp only [Except.toOption, Option.map_some, Option.some.injEq, Prod.mk.injEq] at hfact
+    have hi := hall idle cex r.2 r.1 cex_origin₀ hst
+    exact breaks r.2.trace hfact.1 hfact.2 (fun t mid sn src dn dst m hx =>
+      let ⟨t0, m0, hs, _⟩ := hi.received t mid sn src dn dst m hx; ⟨t0, m0, hs⟩)
 
-/-- corruption needs a positive corruption rate: with the rate at zero throughout, what is queued and received is exactly
-    what was sent -/
-theorem received_intact_no_corruption [LawfulTime T] (h : SHandler σ T) (k : Nat) {s s' : Sim σ T} (b : Bool)
-    (hq : ∀ e ∈ s.events, ∀ mid m src sn dst dn, e.data = .msg mid m src sn dst dn →
-      ∃ t, SLog.sent t mid sn src dn dst m ∈ s.trace)
-    (hr : ∀ t mid sn src dn dst m, SLog.recv t mid sn src dn dst m ∈ s.trace → ∃ t0, SLog.sent t0 mid sn src dn dst m ∈ s.trace)
-    (hz : TimeOps.lt TimeOps.zero s.net.corruptRate = false)
-    (hd : ∀ d ∈ s.draws, LawfulTime.isDraw d) (hzero : LawfulTime.isDraw (TimeOps.zero : T))
-    (hok : s.steps h k = .ok (b, s')) :
-    ∀ t mid sn src dn dst m, SLog.recv t mid sn src dn dst m ∈ s'.trace → ∃ t0, SLog.sent t0 mid sn src dn dst m ∈ s'.trace := sorry
+/-- `received_intact_no_corruption` as first stated (hypothesis `hq` without `e.dst = dn`) is false -/
+example : ¬ ∀ (h : SHandler Nat Ticks) (k : Nat) (s s' : Sim Nat Ticks) (b : Bool),
+    (∀ e ∈ s.events, ∀ mid m src sn dst dn, e.data = .msg mid m src sn dst dn →
+      ∃ t, SLog.sent t mid sn src dn dst m ∈ s.trace) →
+    (∀ t mid sn src dn dst m, SLog.recv t mid sn src dn dst m ∈ s.trace → ∃ t0, SLog.sent t0 mid sn src dn dst m ∈ s.trace) →
+    TimeOps.lt TimeOps.zero s.net.corruptRate = false →
+    (∀ d ∈ s.draws, LawfulTime.isDraw d) → LawfulTime.isDraw (TimeOps.zero : Ticks) →
+    s.steps h k = .ok (b, s') →
+    ∀ t mid sn src dn dst m, SLog.recv t mid sn src dn dst m ∈ s'.trace → ∃ t0, SLog.sent t0 mid sn src dn dst m ∈ s'.trace := by
+  intro hall
+  have hfact : (cex.steps idle 1).toOption.map (fun r => (r.2.trace.any recvOn5, r.2.trace.any sentTo5)) =
+      some (true, false) := by decide
+  cases hst : cex.steps idle 1 with
+  | error e => rw [hst] at hfact; cases hfact
+  | ok r =>
+    rw [hst] at hfact
+    simp only [Except.toOption, Option.map_some, Option.some.injEq, Prod.mk.injEq] at hfact
+    have hq : ∀ e ∈ cex.events, ∀ mid m src sn dst dn, e.data = .msg mid m src sn dst dn →
+        ∃ t, SLog.sent t mid sn src dn dst m ∈ cex.trace := by
+      intro e he mid m src sn dst dn hd
+      obtain ⟨t, m0, hs, hm⟩ := cex_origin₀.queued e he mid m src sn dst dn hd
+      rcases hm with rfl | ⟨hne, _⟩
+      · exact ⟨t, hs⟩
+      · simp only [cex, List.mem_singleton] at he
+        subst he
+        cases hd
+        exact ⟨⟨0⟩, by simp [cex]⟩
+    have hi := hall idle 1 cex r.2 r.1 hq (fun t mid sn src dn dst m hx => by simp [cex] at hx) (by decide)
+      (fun d hd => by simp [cex] at hd) hzero hst
+    exact breaks r.2.trace hfact.1 hfact.2 (fun t mid sn src dn dst m hx =>
+      let ⟨t0, hs⟩ := hi t mid sn src dn dst m hx; ⟨t0, m, hs⟩)
 
-end Sim
+end Sim.RunDemo
 end Anysystem
+
